@@ -117,6 +117,8 @@ def submit_kind(ex, kind, tid):
         return ex.submit(t_arg, tid, HugeArg())
     if kind == "badresult":
         return ex.submit(t_badresult, tid)
+    if kind == "bigarg":
+        return ex.submit(t_arg, tid, b"x" * (2 << 20))     # pickles fine, refused by send_bytes in the feeder thread
     if kind == "die":
         return ex.submit(t_die, tid)
     if kind == "badunpickle_arg":
@@ -148,6 +150,7 @@ EXPECT = {
     "kbint": lambda tid: ("KeyboardInterrupt", "_RemoteTraceback"),
     "badarg": lambda tid: ("PicklingError", "_RemoteTraceback"),
     "hugearg": lambda tid: ("RuntimeError", "_RemoteTraceback"),
+    "bigarg": lambda tid: ("RuntimeError", "_RemoteTraceback"),
     "badresult": lambda tid: ("ValueError", "_RemoteTraceback"),
 }
 
